@@ -218,7 +218,7 @@ def rule_r6_chunk(chk, db):
 
 def rule_hmac_chain(chk, db):
     """calculate_signature: AWS4+secret -> date -> region -> service -> "aws4_request" -> string_to_sign, hex of the last"""
-    b = db.body(M4 + "calculate_signature")
+    b = inline.inlined(db, db.body(M4 + "calculate_signature"))      # with its helper stages inlined
     if b is None:
         raise AnchorMissing("sig_v4 calculate_signature not found")
     order = writes.rpo(b)
